@@ -115,59 +115,6 @@ def duration_to_timedelta_truncates(d, n):
     return fits and _td_us(td) == want
 
 
-@lemma(premise=True, params=["grid"], budget=120)
-def premise_offset_timedelta(P):
-    """Offset.from_timedelta goes through float seconds by design (floats are outside the solver's claims): checked concretely for EVERY
-    whole second in +-18h combined with sub-second parts {0, 1, 499999, 999999} us and both out-of-range neighbours (labelled premise)."""
-    bad = 0
-    first = None
-    for sec in range(-64801, 64802):
-        for us in (0, 1, 499999, 999999):
-            td = real_datetime.timedelta(seconds=sec, microseconds=us)
-            total_us = sec * 10 ** 6 + us
-            want = trunc(total_us, 10 ** 6)
-            try:
-                o = Offset.from_timedelta(td)
-                ok = -64800 <= want <= 64800 and o.seconds == want and o.to_timedelta() == real_datetime.timedelta(seconds=want)
-            except ValueError:
-                ok = abs(total_us) > 64800 * 10 ** 6
-            if not ok:
-                bad += 1
-                first = first or (sec, us)
-    return bad == 0, (f"{bad} mismatches, first {first}" if bad else "518,408 timedeltas checked")
-
-
-# ------------------------------------------------------------------------------------------------ timedelta
-@lemma({"days": int, "secs": int, "us": int}, budget=120, per_path=30,
-       bounds="every timedelta (|days| <= 999999999; seconds 0..86399; microseconds 0..999999, i.e. normalised form): "
-              "Duration.from_timedelta is exact and to_timedelta returns the original")
-def timedelta_to_duration_roundtrip(days, secs, us):
-    assume(-999999999 <= days <= 999999999)          # timedelta's own range (inside Duration's +-2**30 days)
-    assume(0 <= secs < 86400)
-    assume(0 <= us < 10 ** 6)
-    td = real_datetime.timedelta(days=days, seconds=secs, microseconds=us)
-    d = Duration.from_timedelta(td)
-    total_us = (days * 86400 + secs) * 10 ** 6 + us
-    back = d.to_timedelta()
-    return d.to_nanoseconds() == total_us * 1000 and _td_us(back) == total_us and back == td
-
-
-@lemma({"d": int, "n": int}, budget=120, per_path=30,
-       bounds="every Duration: to_timedelta is the value truncated TOWARD ZERO to microseconds, OverflowError exactly when that does not fit a timedelta")
-def duration_to_timedelta_truncates(d, n):
-    assume(Duration._MIN_DAYS <= d <= Duration._MAX_DAYS)
-    assume(0 <= n < NPD)
-    dur = Duration._ctor(days=d, nano_of_day=n)
-    total = d * NPD + n
-    want = trunc(total, 1000)
-    fits = TD_MIN_US <= want <= TD_MAX_US
-    try:
-        td = dur.to_timedelta()
-    except OverflowError:
-        return not fits                 # Duration's range (+-2**30 days) exceeds timedelta's (+-999999999 days): raises, never mis-converts
-    return fits and _td_us(td) == want
-
-
 # ------------------------------------------------------------------------------------------------ time
 @lemma({"hh": int, "mm": int, "ss": int, "us": int}, budget=60, bounds="every datetime.time (naive): LocalTime.from_time is exact and to_time returns the original")
 def time_roundtrip(hh, mm, ss, us):
